@@ -27,7 +27,15 @@ type shapeDesc map[string]interface{}
 
 // edge8 draws a byte-sized field: boundary values now and then (the checks must not
 // depend on a field being zero / all ones), random otherwise.
+var forceEdge int // 1: every such field zero, 2: every such field at its maximum (shapes 0 and 1 of a run)
+
 func edge8(r *rand.Rand, max int) int {
+	switch forceEdge {
+	case 1:
+		return 0
+	case 2:
+		return max
+	}
 	switch r.Intn(4) {
 	case 0:
 		return 0
